@@ -165,6 +165,12 @@ def run(run_, ctx):
             continue  # const helpers are folded at their (inlined) call sites
         if (f.impl_trait or "").endswith(("fmt::Debug", "cmp::PartialEq")):
             continue
+        if [g for g in (getattr(f, "generics", None) or []) if not g.startswith("'")] and f.j.get("vis") != "Public" and not f.impl_trait \
+                and any(f.canon in ((bb["term"].get("callee") or {}).get("canon"),) for h in dc.fns if h is not f for bb in (h.blocks or [])
+                        if bb["term"].get("k") == "call"):
+            # a private helper generic over a type: what it can do depends on the instantiation; it is analysed in place in each caller
+            # (where the type arguments are known), not on its own with an unknown type
+            continue
         helper = vint.writer_sig(f) or (f.name.startswith("try_take_varint_u") and f.name[-1].isdigit()) or \
             (f.argc == 1 and f.locals[1]["ty"] in vint.IW) or (f.argc == 1 and f.locals[1]["ty"] in vint.UW and f.locals[0]["ty"] in vint.IW)
         if helper:
